@@ -1,6 +1,6 @@
 """Python -> Lean translator for a small, explicitly delimited fragment of qubovert (DESIGN.md §7, generated-source tie).
 
-    /venv/bin/python -m harness.translate            # regenerate lean/Qv/Gen/{Source.lean,manifest.json}
+    /venv/bin/python -m harness.translate            # regenerate lean/Qv/Gen/{Source*.lean,manifest.json}
 
 It reads the CURRENT source under $VERIF_REPO (default /repo) with `ast` (the code is never imported or
 executed), and renders each function of REGISTRY as a Lean definition in `namespace Qv.Gen`.  The rendering
@@ -31,8 +31,41 @@ Fragment
               `if <name or name[n]> is None` narrows the Option type of that name in the other branch,
               calls of other REGISTRY functions
   effects     statements listed in the entry's `effects` table append a fixed constant to the effect list
-              the generated function returns (used for `self += lam * P` and the like);
-              `store`: `L[key] += e` / `L[key] -= e` append `(key, e)` / `(key, -e)`
+              the generated function returns (used for `self += lam * P` and the like); `{x}` / `{x:Rat}` in the
+              constant's text is the translated value of the local `x`, which must occur in the statement;
+              `store`: `L[key] += e` / `L[key] -= e` append `(key, e)` / `(key, -e)`;
+              `store_ops`: `L[key] = e`, `+=`, `-=`, `*=` append `SOp.set/add/mul` (reading `L` after, or in a loop
+              in which, it is written is rejected); `effects_with_return`: the returned value paired with the list
+
+Extensions (round 3; meaning of the primitives: lean/Qv/Gen/Prelude{M,Obj,Pcbo,Cons,Store,Brute}.lean)
+  monadic     registry `monadic=True`: every operation that may raise is an `Except Err` action bound with `>>=` in
+              Python's evaluation order (left operand, right operand, operator; arguments left to right; the frame of
+              a statement wraps it and its continuation); operands of `and`/`or` after the first, comprehension /
+              lambda bodies and later comparators must be pure; `for` without `return` -> pyForM; `a if c else b`
+              with raising operands evaluates only the chosen one; `x / y` with `y` not a non-zero literal -> pyDiv
+  objects     `a + b`, `-`, `*`, `** n`, unary `-` on a number / dict / model value -> Val.add/sub/mul/pow/neg
+              (Qv/Model/Expr.lean); an int literal as such an operand -> Val.num; a value passed where a
+              label-or-value is expected -> SVal.val; `isinstance(x, qv.BOOLEAN_MODELS)`, `isinstance(x, dict)`,
+              `x.copy()`, `qv.PUBO()` / `qv.PUBO({…})` / `qv.PUBO(x)` (`qv` must be `import qubovert as qv`),
+              `{(x,): 1}` (x as a label: pyLabel), `PCBO()` -> pyNewPCBO, a PCBO as an operand -> St.val,
+              `recv.add_constraint_eq_zero(P, lam, bounds=(lo, hi))` -> pyAddEqZero, `recv.add_constraint_X(…)` ->
+              the registered method of the same class (keyword-only `lam` with its default)
+  sequences   `*args` parameters and `f(*l)` / `f(a, b)` calls into them; `l[i]` (literal i, negative from the end)
+              -> pyIndex (IndexError); `l[a:b]` -> pySlice; `*head, a, b = l` -> pyUnpackAtLeast + pySlice +
+              pyIndex; `range(n)` -> pyRangeNat; `[e, …]`, `[x] * n` -> pyRepeat; `a << n` -> a * 2^n; `n // d`
+              (d a positive literal); `(a,) + k` on keys -> `++`; `k[1:]` on a key; `P.values()`, `P.keys()`,
+              iterating a dict = its keys, `tuple(it)` = the same list, `P.offset` -> pyOffset,
+              `max(…)`/`min(…)` -> pyMax/pyMin (ValueError when empty), `map(abs, l)`, `all(c for x in l)`,
+              `set(l) == {…}` -> pySetEq, `d.setdefault(k, []).append(x)` -> pySetdefaultAppend,
+              `X is None or B` inside a condition (B evaluated only when X is not None),
+              `reduce(op, it, init)` with `op` from `operator` (and `it` possibly `map(F, l)`) -> the left fold
+  functions   self-recursion with a registry `measure` (termination_by, discharged by `py_decreasing`; the tests of
+              the enclosing `if`s are available to it); generators (`yield`) registered `generator=True` -> the
+              list of yielded pairs; functions nested in a function (`outer.inner`); `loop_body` partial
+              translations may identify the loop by a marker statement alone; `isinstance(k, tuple)` on a key is
+              statically true (`a if isinstance(k, tuple) else b` keeps `a`)
+Each generated unit goes to its own file (UNITS) so that a source edit in one cannot disturb the obligations that
+use another; `not_translated` in the manifest lists, per function, what is deliberately outside the translation.
 """
 import ast, hashlib, json, os, re, sys
 
@@ -68,6 +101,13 @@ RAT, INT, NAT = Simple("Rat", "Rat"), Simple("Int", "Int"), Simple("Nat", "Nat")
 BOOL, PROP, VAR, KEY = Simple("Bool", "Bool"), Simple("Prop", "Prop"), Simple("Var", "Var"), Simple("Key", "Key")
 POLY, ASSIGN, UNIT, EFF = Simple("Poly", "Poly"), Simple("Assign", "(Var → Rat)"), Simple("Unit", "Unit"), Simple("Eff", "Eff")
 OPAQUE = Simple("Opaque", "Unit")     # `self` and the like: may only occur inside effect statements
+# object fragment (Qv/Gen/PreludeObj.lean): a number / plain dict / model object; an argument that may also be a label
+VAL, SVAL = Simple("Val", "Val"), Simple("SVal", "SVal")
+BASSIGN = Simple("Brute.Assign", "Brute.Assign")       # an assignment dict built by _solve_bruteforce (opaque)
+ALLSOLS = Simple("Brute.AllSols", "Brute.AllSols")      # its `all_sols`: dict None/number -> list of assignments
+ST = Simple("St", "St")               # a PCBO object in the logic-constraint methods (Qv/Gen/PreludePcbo.lean)
+CLASS_NEW = {"PCBO": (ST, "pyNewPCBO")}
+KINDS = {"QUBO": ".qubo", "PUBO": ".pubo", "PCBO": ".pcbo", "QUSO": ".quso", "PUSO": ".puso", "PCSO": ".pcso"}
 NUM_ORDER = [NAT, INT, RAT]
 
 
@@ -97,6 +137,12 @@ class TList(Ty):
         self.elt = elt
 
 
+class TSet(Ty):
+    """a Python set of numbers, kept as a list; only `==` between sets is translated (pySetEq)"""
+    def __init__(self, elt):
+        self.elt = elt
+
+
 def res(t):
     while isinstance(t, TV) and t.ref is not None:
         t = t.ref
@@ -115,7 +161,7 @@ def lean_ty(t, top=True):
     if isinstance(t, TOpt):
         s = "Option " + lean_ty(t.elt, False)
     else:
-        s = "List " + lean_ty(t.elt, False)
+        s = "List " + lean_ty(t.elt, False)       # TList and TSet
     return s if top else "(" + s + ")"
 
 
@@ -159,6 +205,8 @@ def join(a, b, node=None):
         return TTuple([join(x, y, node) for x, y in zip(a.elts, b.elts)])
     if a in (BOOL, PROP) and b in (BOOL, PROP):
         return BOOL
+    if (a is VAL and is_num(b)) or (b is VAL and is_num(a)):
+        return VAL
     if isinstance(a, TOpt) and not isinstance(b, TOpt):
         return TOpt(join(a.elt, b, node))
     if isinstance(b, TOpt) and not isinstance(a, TOpt):
@@ -178,6 +226,17 @@ def coerce(s, frm, to, node=None):
         return s
     if frm in NUM_ORDER and to in NUM_ORDER and NUM_ORDER.index(frm) < NUM_ORDER.index(to):
         return "(%s.cast %s : %s)" % (frm.lean, s, to.lean)
+    if to is VAL and (isinstance(frm, TV) or frm in NUM_ORDER):
+        if isinstance(frm, TV):
+            frm.ref = VAL               # an int literal used as an operand of object arithmetic
+            return s
+        return "(Val.num %s)" % coerce(s, frm, RAT, node)
+    if frm is VAL and to is SVAL:
+        return "(SVal.val %s)" % s
+    if frm is ST and to is VAL:
+        return "(St.val %s)" % s
+    if frm is ST and to is SVAL:
+        return "(SVal.val (St.val %s))" % s
     if frm is PROP and to is BOOL:
         return "(decide %s)" % s
     if frm is BOOL and to is PROP:
@@ -216,6 +275,9 @@ PARAM_TYPES = {
     "Poly": lambda: POLY, "Assign": lambda: ASSIGN, "Rat": lambda: RAT, "Bool": lambda: BOOL,
     "Nat": lambda: NAT, "Int": lambda: INT, "Key": lambda: KEY, "Values": lambda: TList(RAT),
     "OptBounds": OPT_BOUNDS, "Opaque": lambda: OPAQUE,
+    "Val": lambda: VAL, "SVal": lambda: SVAL, "SVals": lambda: TList(SVAL), "St": lambda: ST,
+    "KeyRats": lambda: TList(TTuple([KEY, RAT])),
+    "BAssign": lambda: BASSIGN, "AllSols": lambda: ALLSOLS, "Best": lambda: TTuple([TOpt(RAT), BASSIGN]),
 }
 
 EQ_ZERO_EFFECTS = {
@@ -271,7 +333,199 @@ REGISTRY = [
          params=[("k", "Key"), ("v", "Rat")], store="Q", may_raise=True, props=["C04"], group="Convert"),
 ]
 
-BUILTINS = {"abs", "len", "int", "pow", "sum", "all", "map", "isinstance", "dict"}
+SAT = "qubovert/sat/_satisfiability.py"
+SAT_COMMON = dict(file=SAT, unit="Sat", group="Sat", props=["C07"], monadic=True, returns="Val")
+REGISTRY += [
+    dict(SAT_COMMON, func="BUFFER", params=[("x", "SVal")]),
+    dict(SAT_COMMON, func="NOT", params=[("x", "SVal")]),
+    dict(SAT_COMMON, func="AND", params=[], vararg=("variables", "SVals")),
+    dict(SAT_COMMON, func="NAND", params=[], vararg=("variables", "SVals")),
+    dict(SAT_COMMON, func="OR", params=[], vararg=("variables", "SVals"), measure="len(variables)"),
+    dict(SAT_COMMON, func="NOR", params=[], vararg=("variables", "SVals")),
+    dict(SAT_COMMON, func="XOR", params=[], vararg=("variables", "SVals"), measure="len(variables)"),
+    dict(SAT_COMMON, func="XNOR", params=[], vararg=("variables", "SVals"), extra_theorems=["gates_eq_applyGate"]),
+]
+
+# ---- decision chains of the other PCBO comparison constraints (C02; also C03, C06 which go through them)
+CONS_EFFECTS = {
+    "QUBOVertWarning.warn('Constraint is always satisfied')": 'CEff.warn "always"',
+    "QUBOVertWarning.warn('Constraint cannot be satisfied')": 'CEff.warn "unsat"',
+    "self += lam * P": "CEff.iaddLamP",
+    "self += lam": "CEff.iaddLam",
+    "P = P + 1": "CEff.pAddOne",
+    "P = P.copy()": "CEff.pCopy",
+    "P[(self._next_ancilla,)] += v": "CEff.slack {v:Rat}",
+    "sign = 2 * boolean_var(self._next_ancilla) - 1": "CEff.newSign",
+    "P += sign": "CEff.pAddSign",
+    "P += sign * v * boolean_var(self._next_ancilla)": "CEff.pAddSignAnc {v:Rat}",
+    "self.add_constraint_eq_zero(P, lam=lam, bounds=(min_val, max_val), suppress_warnings=True)":
+        "CEff.callEq {min_val} {max_val}",
+    "self.add_constraint_le_zero(P, lam=lam, log_trick=log_trick, bounds=(min_val, max_val), suppress_warnings=True)":
+        "CEff.callLe {min_val} {max_val}",
+    "self.add_constraint_lt_zero(-P, lam=lam, log_trick=log_trick, bounds=bounds, suppress_warnings=suppress_warnings)":
+        "CEff.callLtNeg {bounds} {suppress_warnings}",
+    "self.add_constraint_le_zero(-P, lam=lam, log_trick=log_trick, bounds=bounds, suppress_warnings=suppress_warnings)":
+        "CEff.callLeNeg {bounds} {suppress_warnings}",
+    "self.add_constraint_gt_zero(P, lam=lam, bounds=(min_val, max_val), suppress_warnings=suppress_warnings)":
+        "CEff.callGt {min_val} {max_val} {suppress_warnings}",
+    "self.add_constraint_lt_zero(P, lam=lam, bounds=(min_val, max_val), suppress_warnings=suppress_warnings)":
+        "CEff.callLt {min_val} {max_val} {suppress_warnings}",
+    "self._pop_constraint('eq')": 'CEff.pop "eq"', "self._pop_constraint('le')": 'CEff.pop "le"',
+    "self._pop_constraint('lt')": 'CEff.pop "lt"', "self._pop_constraint('gt')": 'CEff.pop "gt"',
+}
+CONS_PARAMS = [("self", "Opaque"), ("P", "Opaque"), ("lam", "Opaque"), ("log_trick", "Bool"), ("bounds", "Opaque"),
+               ("suppress_warnings", "Bool")]
+CONS_NOT = ["`P = PUBO(P)`, `self._append_constraint(rel, P)`, `if not lam: return self`, the call of `_get_bounds` "
+            "(tied separately: get_bounds)", "the opaque statements on self / P listed in CONS_EFFECTS are named, not "
+            "translated (their meaning: runCEff in Qv/Proofs/GenEq/Cons.lean)"]
+CONS_COMMON = dict(file="qubovert/_pcbo.py", unit="Cons", group="Cons", props=["C02", "C03", "C06"], monadic=True,
+                   params=CONS_PARAMS, locals=[("min_val", "Rat"), ("max_val", "Rat")], effects=CONS_EFFECTS,
+                   eff_type="CEff", returns_effects="self", not_translated=CONS_NOT)
+REGISTRY += [
+    dict(CONS_COMMON, func="PCBO.add_constraint_lt_zero", lean="add_constraint_lt_zero_decision",
+         after="min_val, max_val = _get_bounds(P, bounds)"),
+    dict(CONS_COMMON, func="PCBO.add_constraint_le_zero", lean="add_constraint_le_zero_decision",
+         after="if _special_constraints_le_zero(self, P, lam, log_trick, bounds):\n    return self",
+         not_translated=CONS_NOT + ["`_special_constraints_le_zero` (its four structural shortcuts)"]),
+    dict(CONS_COMMON, func="PCBO.add_constraint_gt_zero", lean="add_constraint_gt_zero_decision",
+         after="min_val, max_val = _get_bounds(P, bounds)"),
+    dict(CONS_COMMON, func="PCBO.add_constraint_ge_zero", lean="add_constraint_ge_zero_decision",
+         after="min_val, max_val = _get_bounds(P, bounds)"),
+    dict(CONS_COMMON, func="PCBO.add_constraint_ne_zero", lean="add_constraint_ne_zero_decision",
+         after="min_val, max_val = _get_bounds(P, bounds)"),
+]
+
+LE_SPECIAL_EFFECTS = {
+    "pcbo += lam * P * P_wo_offset / 2": "LEff.sum1",
+    "ancillas = PUBO()": "LEff.newAncillas",
+    "ancillas[(pcbo._next_ancilla,)] += 1": "LEff.ancilla",
+    "diff = P_wo_offset - ancillas": "LEff.diff",
+    "pcbo += lam * diff * diff": "LEff.addDiffSq",
+    "variables = tuple(P_wo_offset.keys())": "LEff.keysOfPwo",
+    "x, y = AND(*variables[0]), AND(*variables[1])": "LEff.xyOfKeys",
+    "pcbo += PCBO().add_constraint_OR(x, y, lam=lam)": "LEff.addOrPenalty",
+    "coef = {v: k for k, v in P.items()}": "LEff.coef",
+    "x, y = AND(*coef[1]), AND(*coef[-1])": "LEff.xyOfCoef",
+    "pcbo += lam * x * (1 - y)": "LEff.addXnotY",
+}
+REGISTRY += [
+    # the four structural shortcuts of `add_constraint_le_zero`: which one applies (conditions and their order), how
+    # many unary slack ancillas the second one takes, and which statements run
+    dict(file="qubovert/_pcbo.py", func="_special_constraints_le_zero", lean="special_constraints_le_zero_decision",
+         unit="Cons", group="ConsSpecial", props=["C02", "C03", "C06"], monadic=True,
+         params=[("pcbo", "Opaque"), ("P", "Poly"), ("lam", "Opaque"), ("log_trick", "Bool"), ("bounds", "Opaque")],
+         after="P_wo_offset = P - P.offset",
+         locals=[("min_val", "Rat"), ("max_val", "Rat"), ("P_wo_offset", "Poly")],
+         effects=LE_SPECIAL_EFFECTS, eff_type="LEff", effects_with_return=True,
+         not_translated=["`min_val, max_val = bounds` and `P_wo_offset = P - P.offset` (their values are parameters of "
+                         "the generated function)", "the statements that build and add the penalty are named (LEff), not "
+                         "translated; their meaning: runLEff in Qv/Proofs/GenEq/ConsSpecial.lean"]),
+]
+
+# ---- the sixteen logic-constraint methods of PCBO (C06), whole bodies
+LOGIC_COMMON = dict(file="qubovert/_pcbo.py", unit="Logic", group="Logic", props=["C06"], monadic=True, returns="St",
+                    kwonly=[("lam", "Rat", "1")],
+                    not_translated=["the callee `add_constraint_eq_zero` (read as the prelude's pyAddEqZero = model eqZeroV; "
+                                    "its own decision chain is tied separately)"])
+LOGIC_VAR = dict(LOGIC_COMMON, params=[("self", "St")], vararg=("variables", "SVals"))
+LOGIC_EQ_VAR = dict(LOGIC_COMMON, params=[("self", "St"), ("a", "SVal")], vararg=("variables", "SVals"))
+REGISTRY += [
+    dict(LOGIC_COMMON, func="PCBO.add_constraint_NOT", params=[("self", "St"), ("a", "SVal")]),
+    dict(LOGIC_COMMON, func="PCBO.add_constraint_BUFFER", params=[("self", "St"), ("a", "SVal")]),
+    dict(LOGIC_VAR, func="PCBO.add_constraint_AND"),
+    dict(LOGIC_VAR, func="PCBO.add_constraint_NAND"),
+    dict(LOGIC_VAR, func="PCBO.add_constraint_OR"),
+    dict(LOGIC_VAR, func="PCBO.add_constraint_XOR"),
+    dict(LOGIC_VAR, func="PCBO.add_constraint_NOR"),
+    dict(LOGIC_VAR, func="PCBO.add_constraint_XNOR"),
+    dict(LOGIC_EQ_VAR, func="PCBO.add_constraint_eq_AND"),
+    dict(LOGIC_EQ_VAR, func="PCBO.add_constraint_eq_NAND"),
+    dict(LOGIC_EQ_VAR, func="PCBO.add_constraint_eq_OR"),
+    dict(LOGIC_EQ_VAR, func="PCBO.add_constraint_eq_NOR"),
+    dict(LOGIC_EQ_VAR, func="PCBO.add_constraint_eq_XOR"),
+    dict(LOGIC_EQ_VAR, func="PCBO.add_constraint_eq_XNOR"),
+    dict(LOGIC_COMMON, func="PCBO.add_constraint_eq_BUFFER", params=[("self", "St"), ("a", "SVal"), ("b", "SVal")]),
+    dict(LOGIC_COMMON, func="PCBO.add_constraint_eq_NOT", params=[("self", "St"), ("a", "SVal"), ("b", "SVal")]),
+]
+
+# ---- the six PCSO comparison constraints (C03): whole bodies, every statement but `if not lam` is opaque
+def _pcso_effects(rel, log_trick):
+    call = "h = _empty_pcbo(self).add_constraint_%s_zero(puso_to_pubo(H), lam=lam, %sbounds=bounds, " \
+           "suppress_warnings=suppress_warnings)" % (rel, "log_trick=log_trick, " if log_trick else "")
+    return {
+        "H = PUSO(H)": "SEff.spinCopy",
+        "self._append_constraint('%s', H)" % rel: 'SEff.append "%s"' % rel,
+        call: 'SEff.helper "%s"' % rel,
+        "self._ancilla = h._ancilla": "SEff.copyAncilla",
+        "self += pubo_to_puso(h)": "SEff.iaddConverted",
+    }
+
+
+for _rel in ("eq", "ne", "lt", "le", "gt", "ge"):
+    _lt = _rel != "eq"
+    REGISTRY.append(dict(
+        file="qubovert/_pcso.py", unit="Pcso", group="PcsoCons", props=["C03"],
+        func="PCSO.add_constraint_%s_zero" % _rel, lean="pcso_add_constraint_%s_zero" % _rel,
+        params=[("self", "Opaque"), ("H", "Opaque"), ("lam", "Rat")] + ([("log_trick", "Opaque")] if _lt else []) +
+               [("bounds", "Opaque"), ("suppress_warnings", "Opaque")],
+        effects=_pcso_effects(_rel, _lt), eff_type="SEff", returns_effects="self",
+        not_translated=["every statement except `if not lam: return self` is opaque and named (SEff); what each "
+                        "does: runSEff in Qv/Proofs/GenEq/PcsoCons.lean"]))
+
+# ---- brute force (C09): the bookkeeping one visited assignment produces
+REGISTRY += [
+    dict(file="qubovert/utils/_solve_bruteforce.py", func="_solve_bruteforce", lean="solve_bruteforce_update",
+         unit="Brute", group="Brute", props=["C09"],
+         loop_body=dict(after="v = value(x, D)"),        # the enumeration loop: the one containing this statement
+         params=[("all_solutions", "Bool")],
+         locals=[("best", "Best"), ("all_sols", "AllSols"), ("x", "BAssign"), ("v", "Rat")],
+         loop_state=[("best", "Best"), ("all_sols", "AllSols")],
+         not_translated=["everything but the statements after `v = value(x, D)` in the enumeration loop: the "
+                         "empty / constant shortcuts, the variable list, itertools.product, the dict "
+                         "comprehension, `if not valid(x): continue`, the final `all_sols[best[0]]`"]),
+]
+
+# ---- pubo_to_puso / puso_to_pubo (C04): the recursive generator of the expansion of one key, and the updates one term
+# (k, v) produces
+CONV = "qubovert/utils/_conversions.py"
+for _f, _src, _store in (("pubo_to_puso", "P", "H"), ("puso_to_pubo", "H", "P")):
+    REGISTRY += [
+        dict(file=CONV, func=_f + ".generate_new_key_value", lean=_f + "_generate", nested=True, generator=True,
+             unit="Conv", group="ConvGen", props=["C04"], params=[("k", "Key")], returns="KeyRats", measure="len(k)"),
+        dict(file=CONV, func=_f, lean=_f + "_term", unit="Conv", group="ConvGen", props=["C04"],
+             loop_body=dict(target="k, v", source=_src + ".items()"), params=[("k", "Key"), ("v", "Rat")], store=_store,
+             not_translated=["the choice of the result type (`PUSOMatrix() if type(P) in … else qv.PUSO()`) and the "
+                             "outer loop over `.items()`; `%s[key] += c` is recorded as the update `(key, c)`" % _store]),
+    ]
+
+# ---- normalize (C18): the function and the DictArithmetic method; item statements of the DictArithmetic operators (C05)
+DA = "qubovert/utils/_dict_arithmetic.py"
+STORE_NOTE = "the container written to is opaque: each item statement is recorded as an SOp (Qv/Gen/PreludeStore.lean); " \
+             "what a store does for a container type is the model's Ty.store / addTerm / mulItem"
+REGISTRY += [
+    dict(file="qubovert/utils/_normalize.py", func="normalize", lean="normalize_fn", unit="Store", group="Normalize",
+         props=["C18"], monadic=True, params=[("D", "Poly"), ("value", "Rat")], after="res = type(D)()",
+         store="res", store_ops=True, returns_effects="res", not_translated=["`res = type(D)()`", STORE_NOTE]),
+    dict(file=DA, func="DictArithmetic.normalize", lean="normalize_method", unit="Store", group="Normalize",
+         props=["C18"], monadic=True, params=[("self", "Poly"), ("value", "Rat")], store="self", store_ops=True,
+         not_translated=[STORE_NOTE]),
+    dict(file=DA, func="DictArithmetic.__iadd__", lean="dict_iadd_term", unit="Store", group="ArithTerms", props=["C05"],
+         loop_body=dict(target="k, v", source="other.items()"), params=[("k", "Key"), ("v", "Rat")],
+         store="self", store_ops=True, not_translated=["the `isinstance(other, dict)` dispatch and the constant branch", STORE_NOTE]),
+    dict(file=DA, func="DictArithmetic.__isub__", lean="dict_isub_term", unit="Store", group="ArithTerms", props=["C05"],
+         loop_body=dict(target="k, v", source="tuple(other.items())"), params=[("k", "Key"), ("v", "Rat")],
+         store="self", store_ops=True, not_translated=["the `isinstance(other, dict)` dispatch and the constant branch", STORE_NOTE]),
+    dict(file=DA, func="DictArithmetic.__imul__", lean="dict_imul_row", unit="Store", group="ArithTerms", props=["C05"],
+         loop_body=dict(target="k, v", source="items"), params=[("k", "Key"), ("v", "Rat")], locals=[("oitems", "KeyRats")],
+         store="self", store_ops=True,
+         not_translated=["the dispatch, the snapshots `items, oitems = …`, `self.clear()` and the outer loop; the "
+                         "`else (k,)` operands of `k if isinstance(k, tuple) else (k,)` (keys are tuples)", STORE_NOTE]),
+    dict(file=DA, func="DictArithmetic.__imul__", lean="dict_imul_const_term", unit="Store", group="ArithTerms", props=["C05"],
+         loop_body=dict(target="k", source="tuple(self.keys())"), params=[("k", "Key")], locals=[("other", "Rat")],
+         store="self", store_ops=True, not_translated=["the dispatch and the loop over the key snapshot", STORE_NOTE]),
+]
+
+BUILTINS = {"abs", "len", "int", "pow", "sum", "all", "map", "isinstance", "dict", "set", "range", "tuple", "max", "min"}
 EXC = {"KeyError": "Err.key", "ValueError": "Err.value", "TypeError": "Err.type", "IndexError": "Err.index",
        "ZeroDivisionError": "Err.zerodiv", "AttributeError": "Err.attr"}
 
@@ -290,10 +544,54 @@ class Fn:
         self.store = entry.get("store")
         self.eff_ty = None
         if self.effects:
-            self.eff_ty = EFF
-        elif self.store:
-            self.eff_ty = TTuple([KEY, RAT])
+            self.eff_ty = Simple(entry["eff_type"], entry["eff_type"]) if "eff_type" in entry else EFF
+        elif entry.get("store_ops"):
+            self.eff_ty = Simple("SOp", "SOp")      # item statements on the opaque container (Qv/Gen/PreludeStore.lean)
+        elif self.store or entry.get("generator"):
+            self.eff_ty = TTuple([KEY, RAT])        # `L[key] += c` updates / the (key, value) pairs a generator yields
         self.extra_params = []
+        self.monadic = bool(entry.get("monadic"))     # operations that may raise are Except actions, sequenced with >>=
+        if self.monadic:
+            self.raises = True
+        self.pend, self.nbind, self.nhyp = [[]], 0, 0
+        self.stored, self.in_store_loop = False, 0
+        self.recursive = False
+        self.own_name = entry["func"].split(".")[-1]
+
+    # ---- operations that may raise (monadic mode)
+
+    def bind(self, action, ty, node):
+        """the value of an action that may raise: a fresh name bound with >>= around the enclosing statement"""
+        if not self.monadic:
+            raise Untranslatable("an operation that may raise, in a function not translated in monadic mode", node)
+        self.nbind += 1
+        name = "_py_m%d" % self.nbind
+        self.pend[-1].append((name, ty, action))
+        return name, ty
+
+    def wrap(self, frame, text, pad):
+        for name, ty, action in reversed(frame):
+            text = "(%s >>= fun (%s : %s) =>\n%s%s)" % (action, name, lean_ty(ty), pad, text)
+        return text
+
+    def pure_only(self, f, what, node):
+        """evaluate f() where no operation that may raise is allowed (short-circuit operands, lambda bodies)"""
+        self.pend.append([])
+        try:
+            out = f()
+        finally:
+            frame = self.pend.pop()
+        if frame:
+            raise Untranslatable("an operation that may raise inside %s" % what, node)
+        return out
+
+    def framed(self, f):
+        self.pend.append([])
+        try:
+            out = f()
+        finally:
+            frame = self.pend.pop()
+        return out, frame
 
     # ---- expressions -> (lean string, type)
 
@@ -317,6 +615,8 @@ class Fn:
                 raise Untranslatable("name %s is not a parameter or an assigned local" % n.id, n)
             if res(env[n.id]) is OPAQUE:
                 raise Untranslatable("opaque parameter %s used outside an effect statement" % n.id, n)
+            if self.e.get("store_ops") and n.id == self.store and (getattr(self, "stored", False) or self.in_store_loop):
+                raise Untranslatable("the container %s is read after (or in a loop in which) it is written" % n.id, n)
             return mangle(n.id), env[n.id]
         if isinstance(n, ast.Tuple):
             exp = res(expected) if expected is not None else None
@@ -335,6 +635,8 @@ class Fn:
                         and not isinstance(n.operand.value, bool):
                     return self.lit(-n.operand.value, n)
                 s, t = self.expr(n.operand, env)
+                if res(t) is VAL:
+                    return self.bind("(Val.neg %s)" % s, VAL, n)
                 if not is_num(t):
                     raise Untranslatable("negation of a non-number", n)
                 if res(t) is NAT:
@@ -349,13 +651,42 @@ class Fn:
             return self.compare(n, env), PROP
         if isinstance(n, ast.BoolOp):
             # only its truth value is used anywhere in the fragment
+            nar = self.narrowing(n.values[0], env) if isinstance(n.op, ast.Or) else None
+            if nar and not nar[2]:
+                # `X is None or B` where B reads X: B is evaluated only when X is not None
+                name, c, _ = nar
+                t = res(env[name])
+                env_some = dict(env)
+                if c is None:
+                    scrut, rebind = mangle(name), "let %s : %s := _py_some;" % (mangle(name), lean_ty(t.elt))
+                    env_some[name] = t.elt
+                else:
+                    elts = list(t.elts)
+                    elts[c] = res(elts[c]).elt
+                    t2 = TTuple(elts)
+                    parts = ["_py_some" if i == c else proj(mangle(name), i, len(elts)) for i in range(len(elts))]
+                    scrut = proj(mangle(name), c, len(elts))
+                    rebind = "let %s : %s := (%s);" % (mangle(name), lean_ty(t2), ", ".join(parts))
+                    env_some[name] = t2
+                rest = n.values[1] if len(n.values) == 2 else ast.BoolOp(op=ast.Or(), values=n.values[1:])
+                r = self.pure_only(lambda: self.cond(rest, env_some), "a short-circuit operand", n)
+                return "((match %s with | none => true | some _py_some => %s decide %s) = true)" % (scrut, rebind, r), PROP
             op = " ∧ " if isinstance(n.op, ast.And) else " ∨ "
-            return "(" + op.join(self.cond(v, env) for v in n.values) + ")", PROP
+            parts = [self.cond(n.values[0], env)]
+            parts += [self.pure_only(lambda v=v: self.cond(v, env), "a short-circuit operand", v) for v in n.values[1:]]
+            return "(" + op.join(parts) + ")", PROP
+        if isinstance(n, ast.IfExp) and self.static_tuple_test(n.test, env):
+            return self.expr(n.body, env, expected)     # keys are tuples in this universe; the other operand is not translated
         if isinstance(n, ast.IfExp):
             c = self.cond(n.test, env)
-            a, ta = self.expr(n.body, env, expected)
-            b, tb = self.expr(n.orelse, env, expected)
+            (a, ta), fa = self.framed(lambda: self.expr(n.body, env, expected))
+            (b, tb), fb = self.framed(lambda: self.expr(n.orelse, env, expected))
             t = join(ta, tb, n)
+            if fa or fb:        # only the chosen operand is evaluated
+                ok = "(Except.ok %%s : Except Err %s)" % lean_ty(t, False)
+                act = "(if %s then %s else %s)" % (c, self.wrap(fa, ok % coerce(a, ta, t, n), "    "),
+                                                   self.wrap(fb, ok % coerce(b, tb, t, n), "    "))
+                return self.bind(act, t, n)
             return "(if %s then %s else %s)" % (c, coerce(a, ta, t, n), coerce(b, tb, t, n)), t
         if isinstance(n, ast.Subscript):
             return self.subscript(n, env)
@@ -363,15 +694,85 @@ class Fn:
             return self.call(n, env)
         if isinstance(n, ast.ListComp):
             return self.comprehension(n, env)
+        if isinstance(n, ast.Dict):
+            return self.dict_literal(n, env)
+        if isinstance(n, ast.Attribute) and n.attr == "offset":
+            a, ta = self.expr(n.value, env)
+            if res(ta) is POLY:
+                return "(pyOffset %s)" % a, RAT             # `P.offset` is `P[()]`
+            raise Untranslatable(".offset of a %s" % lean_ty(ta), n)
+        if isinstance(n, ast.List):
+            parts = [self.expr(x, env) for x in n.elts]
+            if not parts:
+                raise Untranslatable("empty list display", n)
+            t = parts[0][1]
+            for _, u in parts[1:]:
+                t = join(t, u, n)
+            return "[" + ", ".join(coerce(v, u, t, n) for v, u in parts) + "]", TList(t)
+        if isinstance(n, ast.Set):
+            parts = [self.expr(x, env) for x in n.elts]
+            if not parts or not all(is_num(t) for _, t in parts):
+                raise Untranslatable("set display of non-numbers", n)
+            return "[" + ", ".join(coerce(v, t, RAT, n) for v, t in parts) + "]", TSet(RAT)
         raise Untranslatable("expression %s" % type(n).__name__, n)
+
+    def static_tuple_test(self, t, env):
+        """`isinstance(k, tuple)` for a `k` whose static type is Key"""
+        return isinstance(t, ast.Call) and isinstance(t.func, ast.Name) and t.func.id == "isinstance" and len(t.args) == 2 \
+            and not t.keywords and isinstance(t.args[1], ast.Name) and t.args[1].id == "tuple" \
+            and isinstance(t.args[0], ast.Name) and t.args[0].id in env and res(env[t.args[0].id]) is KEY \
+            and "tuple" not in self.module_names() and "isinstance" not in self.module_names()
+
+    def dict_literal(self, n, env):
+        """`{(a, b): c, …}` with tuple-of-labels keys and number values -> a Poly in source order"""
+        items = []
+        for k, v in zip(n.keys, n.values):
+            if not isinstance(k, ast.Tuple):
+                raise Untranslatable("dict literal whose key is not a tuple", n)
+            labels = []
+            for x in k.elts:
+                sx, tx = self.expr(x, env)
+                if res(tx) is SVAL:
+                    sx, tx = self.bind("(pyLabel %s)" % sx, VAR, x)
+                if res(tx) is not VAR:
+                    raise Untranslatable("dict literal key element that is not a label", x)
+                labels.append(sx)
+            sv, tv = self.expr(v, env)
+            if not is_num(tv):
+                raise Untranslatable("dict literal value that is not a number", v)
+            items.append("([%s], %s)" % (", ".join(labels), coerce(sv, tv, RAT, v)))
+        return "[" + ", ".join(items) + "]", POLY
 
     def binop(self, op, left, right, env, node):
         a, ta = self.expr(left, env)
+        if isinstance(op, ast.Pow) and res(ta) is VAL:
+            if not (isinstance(right, ast.Constant) and isinstance(right.value, int) and not isinstance(right.value, bool)):
+                raise Untranslatable("** on an object with a non-literal exponent", node)
+            return self.bind("(Val.pow %s (%d : Int))" % (a, right.value), VAL, node)
         b, tb = self.expr(right, env)
+        if res(ta) in (VAL, ST) or res(tb) in (VAL, ST):
+            fn = {ast.Add: "Val.add", ast.Sub: "Val.sub", ast.Mult: "Val.mul"}.get(type(op))
+            if fn is None:
+                raise Untranslatable("operator %s on objects" % type(op).__name__, node)
+            return self.bind("(%s %s %s)" % (fn, coerce(a, ta, VAL, node), coerce(b, tb, VAL, node)), VAL, node)
+        if res(ta) is KEY and res(tb) is KEY and isinstance(op, ast.Add):
+            return "(%s ++ %s)" % (a, b), KEY               # tuple concatenation
+        if isinstance(op, ast.Mult) and isinstance(res(ta), TList) and is_num(tb) and res(tb) is not RAT:
+            return "(pyRepeat %s %s)" % (a, coerce(b, tb, INT, node)), res(ta)      # `[x] * n`
+        if isinstance(op, ast.LShift) and is_num(ta) and is_num(tb):
+            return "(%s * %s ^ %s)" % (a, "(2 : %s)" % lean_ty(ta), self.as_nat(b, tb, "<< by", node)), ta   # a << n = a * 2**n
         if not (is_num(ta) and is_num(tb)):
             raise Untranslatable("arithmetic on non-numbers (%s, %s)" % (lean_ty(ta), lean_ty(tb)), node)
+        if isinstance(op, ast.FloorDiv):
+            if not (isinstance(right, ast.Constant) and isinstance(right.value, int) and right.value > 0):
+                raise Untranslatable("// by something that is not a positive literal", node)
+            return "(%s / %s)" % (self.as_nat(a, ta, "// on", node), self.as_nat(b, tb, "// by", node)), NAT
         if isinstance(op, ast.Div):
-            return "(%s / %s)" % (coerce(a, ta, RAT), coerce(b, tb, RAT)), RAT
+            if isinstance(right, ast.Constant) and isinstance(right.value, int) and not isinstance(right.value, bool) \
+                    and right.value != 0:
+                return "(%s / %s)" % (coerce(a, ta, RAT), coerce(b, tb, RAT)), RAT
+            # a divisor that is not a non-zero literal: ZeroDivisionError when it is 0
+            return self.bind("(pyDiv %s %s)" % (coerce(a, ta, RAT), coerce(b, tb, RAT)), RAT, node)
         if isinstance(op, ast.Mod):
             return "(%s %% %s)" % (self.as_nat(a, ta, "% on", node), self.as_nat(b, tb, "% by", node)), NAT
         sym = {ast.Add: "+", ast.Sub: "-", ast.Mult: "*"}.get(type(op))
@@ -406,6 +807,10 @@ class Fn:
                     raise Untranslatable("comparison %s" % type(op).__name__, n)
                 a, ta = self.expr(left, env)
                 b, tb = self.expr(right, env, ta)
+                if isinstance(res(ta), TSet) and isinstance(res(tb), TSet) and sym in ("=", "≠"):
+                    parts.append("((pySetEq %s %s) = %s)" % (a, b, "true" if sym == "=" else "false"))
+                    left = right
+                    continue
                 if is_num(ta) and is_num(tb):
                     t = num_join(ta, tb)
                     a, b = coerce(a, ta, t), coerce(b, tb, t)
@@ -425,7 +830,7 @@ class Fn:
             return "(%s = true)" % s
         if is_num(t):
             return "(%s ≠ 0)" % s
-        if t is KEY or isinstance(t, TList):
+        if t is KEY or t is POLY or isinstance(t, TList):
             return "(%s ≠ [])" % s
         raise Untranslatable("truth value of a %s" % lean_ty(t), n)
 
@@ -438,7 +843,7 @@ class Fn:
             return "(%s = false)" % s
         if is_num(t):
             return "(%s = 0)" % s
-        if t is KEY or isinstance(t, TList):
+        if t is KEY or t is POLY or isinstance(t, TList):
             return "(%s = [])" % s
         raise Untranslatable("truth value of a %s" % lean_ty(t), n)
 
@@ -456,6 +861,40 @@ class Fn:
             if res(ti) is not VAR:
                 raise Untranslatable("container indexed by something that is not a label", n)
             return "(%s %s)" % (v, i), RAT
+        if isinstance(tv, TList):
+            if isinstance(n.slice, ast.Slice):
+                if n.slice.step is not None:
+                    raise Untranslatable("slice with a step", n)
+                bounds = []
+                for bnd in (n.slice.lower, n.slice.upper):
+                    if bnd is None:
+                        bounds.append("none")
+                    else:
+                        sb, tb = self.expr(bnd, env)
+                        if not is_num(tb) or res(tb) is RAT:
+                            raise Untranslatable("slice bound that is not an int", n)
+                        bounds.append("(some %s)" % coerce(sb, tb, INT, n))
+                return "(pySlice %s %s %s)" % (v, bounds[0], bounds[1]), tv
+            i = n.slice
+            if isinstance(i, ast.UnaryOp) and isinstance(i.op, ast.USub) and isinstance(i.operand, ast.Constant):
+                i = ast.Constant(value=-i.operand.value)
+            if isinstance(i, ast.Constant) and isinstance(i.value, int) and not isinstance(i.value, bool):
+                lit = "(%d : Int)" % i.value if i.value >= 0 else "(-%d : Int)" % -i.value
+                return self.bind("(pyIndex %s %s)" % (v, lit), tv.elt, n)      # IndexError when out of range
+            raise Untranslatable("list subscript with a non-literal index", n)
+        if tv is KEY and isinstance(n.slice, ast.Slice):
+            if n.slice.step is not None:
+                raise Untranslatable("slice with a step", n)
+            bounds = []
+            for bnd in (n.slice.lower, n.slice.upper):
+                if bnd is None:
+                    bounds.append("none")
+                else:
+                    sb, tb = self.expr(bnd, env)
+                    if not is_num(tb) or res(tb) is RAT:
+                        raise Untranslatable("slice bound that is not an int", n)
+                    bounds.append("(some %s)" % coerce(sb, tb, INT, n))
+            return "(pySlice %s %s %s)" % (v, bounds[0], bounds[1]), KEY
         c = self.const_index(n)
         if c is None:
             raise Untranslatable("subscript with a non-literal index", n)
@@ -473,12 +912,22 @@ class Fn:
             if res(t) is POLY:
                 return s, TTuple([KEY, RAT])
             raise Untranslatable(".items() of a %s" % lean_ty(t), n)
-        s, t = self.expr(n, env)
+        if isinstance(n, ast.Call) and isinstance(n.func, ast.Name) and n.func.id == "range" and len(n.args) == 1 \
+                and not n.keywords and "range" not in env:
+            if "range" in self.module_names():
+                raise Untranslatable("builtin range is rebound in this module", n)
+            s, t = self.expr(n.args[0], env)
+            if not is_num(t) or res(t) is RAT:
+                raise Untranslatable("range of something that is not an int", n)
+            return "(pyRangeNat %s)" % coerce(s, t, INT, n), NAT
+        s, t = self.list_like(n, env)
         t = res(t)
         if t is KEY:
             return s, VAR
         if isinstance(t, TList):
             return s, t.elt
+        if t is POLY:
+            return "(List.map Prod.fst %s)" % s, KEY    # iterating a dict gives its keys
         raise Untranslatable("iteration over a %s" % lean_ty(t), n)
 
     def bind_target(self, target, elt_ty, it, env):
@@ -506,18 +955,25 @@ class Fn:
         g = self.one_generator(n)
         src, et = self.iter_source(g.iter, env)
         lets, env2 = self.bind_target(g.target, et, "_py_it", env)
-        e, te = self.expr(n.elt, env2)
+        e, te = self.pure_only(lambda: self.expr(n.elt, env2), "a comprehension", n)
         if res(te) is PROP:
             e, te = coerce(e, PROP, BOOL), BOOL
         if g.ifs:
-            c = " ∧ ".join(self.cond(i, env2) for i in g.ifs)
+            c = " ∧ ".join(self.pure_only(lambda i=i: self.cond(i, env2), "a comprehension", n) for i in g.ifs)
             src = "(List.filter (fun (_py_it : %s) => %sdecide %s) %s)" % (lean_ty(et), lets, c, src)
         return "(List.map (fun (_py_it : %s) => %s%s) %s)" % (lean_ty(et), lets, e, src), TList(te)
 
     def call(self, n, env):
+        f = n.func
+        if isinstance(f, ast.Attribute) and f.attr.startswith("add_constraint_"):
+            return self.call_method(n, env)
         if n.keywords:
             raise Untranslatable("keyword arguments", n)
-        f = n.func
+        if isinstance(f, ast.Name) and f.id in CLASS_NEW and f.id not in env and not n.args:
+            if not any(isinstance(s, ast.ClassDef) and s.name == f.id for s in ast.parse(self.src).body) \
+                    or sum(1 for x in self.module_names() if x == f.id) != 1:
+                raise Untranslatable("%s is not the class defined in this module" % f.id, n)
+            return "(%s)" % CLASS_NEW[f.id][1], CLASS_NEW[f.id][0]
         if isinstance(f, ast.Attribute):
             if isinstance(f.value, ast.Name) and f.value.id == "int" and f.attr == "bit_length" and len(n.args) == 1:
                 a, ta = self.expr(n.args[0], env)
@@ -533,6 +989,33 @@ class Fn:
             if f.attr == "values" and not n.args and isinstance(f.value, ast.Name) \
                     and f.value.id + "_is_dict" in env:
                 return self.expr(f.value, env)          # a `Values` parameter *is* the list of its values
+            if f.attr == "values" and not n.args:
+                a, ta = self.expr(f.value, env)
+                if res(ta) is POLY:
+                    return "(List.map Prod.snd %s)" % a, TList(RAT)
+                raise Untranslatable(".values() of a %s" % lean_ty(ta), n)
+            if f.attr == "keys" and not n.args:
+                a, ta = self.expr(f.value, env)
+                if res(ta) is POLY:
+                    return "(List.map Prod.fst %s)" % a, TList(KEY)
+                raise Untranslatable(".keys() of a %s" % lean_ty(ta), n)
+            if isinstance(f.value, ast.Name) and f.value.id not in env and f.attr in KINDS:
+                self.need_module_alias("qubovert", f.value.id, n)       # qv.PUBO(...)
+                kind = KINDS[f.attr]
+                if not n.args:
+                    return "(pyNew0 %s)" % kind, VAL
+                if len(n.args) == 1:
+                    a, ta = self.expr(n.args[0], env)
+                    if res(ta) is POLY:
+                        return self.bind("(pyNewDict %s %s)" % (kind, a), VAL, n)
+                    if res(ta) in (SVAL, VAL):
+                        return self.bind("(pyNew %s %s)" % (kind, coerce(a, ta, SVAL, n)), VAL, n)
+                raise Untranslatable("constructor call %s.%s with these arguments" % (f.value.id, f.attr), n)
+            if f.attr == "copy" and not n.args:
+                a, ta = self.expr(f.value, env)
+                if res(ta) in (SVAL, VAL):
+                    return self.bind("(pyCopy %s)" % coerce(a, ta, SVAL, n), VAL, n)
+                raise Untranslatable(".copy() of a %s" % lean_ty(ta), n)
             raise Untranslatable("method call .%s" % f.attr, n)
         if not isinstance(f, ast.Name):
             raise Untranslatable("call of a computed function", n)
@@ -566,6 +1049,39 @@ class Fn:
             return "(%s ^ %s)" % (a, self.as_nat(b, tb, "pow with an exponent", n)), ta
         if name == "sum" and len(args) == 1 and isinstance(args[0], ast.GeneratorExp):
             return self.sum_gen(args[0], env)
+        if name == "tuple" and len(args) == 1:
+            l, tl = self.list_like(args[0], env)        # a snapshot of an iterable: the same list
+            if isinstance(res(tl), TList):
+                return l, tl
+            if res(tl) is POLY:                         # iterating a dict gives its keys
+                return "(List.map Prod.fst %s)" % l, TList(KEY)
+            raise Untranslatable("tuple() of a %s" % lean_ty(tl), n)
+        if name in ("max", "min") and len(args) == 1 and not isinstance(args[0], ast.GeneratorExp):
+            l, tl = self.list_like(args[0], env)
+            if isinstance(res(tl), TList) and res(res(tl).elt) is RAT:
+                return self.bind("(%s %s)" % ("pyMax" if name == "max" else "pyMin", l), RAT, n)
+            raise Untranslatable("%s() of a %s" % (name, lean_ty(tl)), n)
+        if name in ("max", "min") and len(args) == 1 and isinstance(args[0], ast.GeneratorExp):
+            l, tl = self.comprehension(ast.ListComp(elt=args[0].elt, generators=args[0].generators,
+                                                    lineno=n.lineno), env)
+            if not (isinstance(res(tl), TList) and is_num(res(tl).elt)):
+                raise Untranslatable("%s() of non-numbers" % name, n)
+            if res(res(tl).elt) is not RAT:
+                raise Untranslatable("%s() of a generator of ints" % name, n)
+            return self.bind("(%s %s)" % ("pyMax" if name == "max" else "pyMin", l), RAT, n)   # ValueError when empty
+        if name == "set" and len(args) == 1:
+            l, tl = self.list_like(args[0], env)
+            if isinstance(res(tl), TList) and res(res(tl).elt) is RAT:
+                return l, TSet(RAT)
+            raise Untranslatable("set() of a %s" % lean_ty(tl), n)
+        if name == "all" and len(args) == 1 and isinstance(args[0], ast.GeneratorExp):
+            gen = self.one_generator(args[0])
+            if gen.ifs:
+                raise Untranslatable("all() of a filtered generator", n)
+            src, et = self.iter_source(gen.iter, env)
+            lets, env2 = self.bind_target(gen.target, et, "_py_it", env)
+            c = self.pure_only(lambda: self.cond(args[0].elt, env2), "a generator expression", n)
+            return "(List.all %s (fun (_py_it : %s) => %sdecide %s))" % (src, lean_ty(et), lets, c), BOOL
         if name == "all" and len(args) == 1:
             l, tl = self.list_like(args[0], env)
             if isinstance(res(tl), TList) and res(res(tl).elt) is RAT:
@@ -574,11 +1090,159 @@ class Fn:
         if name == "isinstance" and len(args) == 2 and isinstance(args[0], ast.Name) \
                 and isinstance(args[1], ast.Name) and args[1].id == "dict" and args[0].id + "_is_dict" in env:
             return args[0].id + "_is_dict", BOOL
+        if name == "isinstance" and len(args) == 2:
+            a, ta = self.expr(args[0], env)
+            if res(ta) in (SVAL, VAL):
+                a = coerce(a, ta, SVAL, n)
+                c = args[1]
+                if isinstance(c, ast.Name) and c.id == "dict":
+                    if "dict" in self.module_names():
+                        raise Untranslatable("builtin dict is rebound in this module", n)
+                    return "(pyIsDict %s)" % a, BOOL
+                if isinstance(c, ast.Attribute) and isinstance(c.value, ast.Name) and c.value.id not in env \
+                        and c.attr == "BOOLEAN_MODELS":
+                    self.need_module_alias("qubovert", c.value.id, n)
+                    return "(pyIsBooleanModel %s)" % a, BOOL
+            raise Untranslatable("isinstance with these arguments", n)
+        if name == self.own_name and ("." not in self.e["func"] or self.e.get("nested")) \
+                and "loop_body" not in self.e and "after" not in self.e:
+            return self.call_self(n, env)
         if name in self.done:
             return self.call_registered(name, n, env)
+        inner = "%s.%s" % (self.e["func"], name)
+        if inner in self.done and self.done[inner].get("nested") and self.done[inner]["file"] == self.e["file"] \
+                and sum(1 for x in ast.walk(self.fnode) if isinstance(x, ast.FunctionDef) and x.name == name) == 1 \
+                and name not in self.assigned([x for x in self.fnode.body if not isinstance(x, ast.FunctionDef)]):
+            callee = self.done[inner]              # the function defined inside this one
+            if callee["status"] != "translated":
+                raise Untranslatable("call of %s, which is itself %s" % (name, callee["status"]), n)
+            args = self.pass_args(name, n, env, callee["param_tys"], False)
+            call = "(%s %s)" % (callee["lean"], " ".join(args))
+            return self.bind(call, callee["ret_ty"], n) if callee["raises"] else (call, callee["ret_ty"])
         raise Untranslatable("call of %s" % name, n)
 
+    def need_module_alias(self, module, alias, node):
+        """`alias` must be bound by `import module as alias` at module level and nowhere else at that level"""
+        tree = ast.parse(self.src)
+        hits = 0
+        for s in tree.body:
+            if isinstance(s, ast.Import):
+                for a in s.names:
+                    if (a.asname or a.name.split(".")[0]) == alias:
+                        hits += 1 if (a.name == module and a.asname == alias) or (a.name == alias == module) else 100
+            elif isinstance(s, ast.ImportFrom):
+                hits += 100 * sum(1 for a in s.names if (a.asname or a.name) == alias)
+            elif isinstance(s, (ast.FunctionDef, ast.ClassDef, ast.AsyncFunctionDef)):
+                hits += 100 if s.name == alias else 0
+            else:
+                hits += 100 * sum(1 for x in ast.walk(s) if isinstance(x, ast.Name) and isinstance(x.ctx, ast.Store)
+                                  and x.id == alias)
+        if hits != 1:
+            raise Untranslatable("%s is not exactly `import %s as %s`" % (alias, module, alias), node)
+
+    def pass_args(self, what, n, env, ptys, vararg):
+        """render the arguments of a call against the callee's parameter types (last one a *args list if vararg)"""
+        fixed = ptys[:-1] if vararg else ptys
+        args = list(n.args)
+        if len(args) < len(fixed) or any(isinstance(a, ast.Starred) for a in args[:len(fixed)]):
+            raise Untranslatable("call of %s with too few positional arguments" % what, n)
+        out = []
+        for a, pt in zip(args[:len(fixed)], fixed):
+            sa, ta = self.expr(a, env, pt)
+            out.append(coerce(sa, ta, pt, n))
+        extra = args[len(fixed):]
+        if not vararg:
+            if extra:
+                raise Untranslatable("call of %s with %d arguments" % (what, len(args)), n)
+            return out
+        lt = ptys[-1]
+        if len(extra) == 1 and isinstance(extra[0], ast.Starred):
+            sa, ta = self.expr(extra[0].value, env)
+            if not same(ta, lt):
+                raise Untranslatable("*%s passed where %s is expected" % (lean_ty(ta), lean_ty(lt)), n)
+            out.append(sa)
+        elif any(isinstance(a, ast.Starred) for a in extra):
+            raise Untranslatable("mixed starred and plain variadic arguments", n)
+        else:
+            elts = []
+            for a in extra:
+                sa, ta = self.expr(a, env, lt.elt)
+                elts.append(coerce(sa, ta, lt.elt, n))
+            out.append("[" + ", ".join(elts) + "]")
+        return out
+
+    def call_method(self, n, env):
+        """`recv.add_constraint_X(...)` on a PCBO: `add_constraint_eq_zero` is the prelude's `pyAddEqZero`; any other
+        is the registered (translated) method of the same class"""
+        f = n.func
+        recv, tr = self.expr(f.value, env)
+        if res(tr) is not ST:
+            raise Untranslatable("method %s of a %s" % (f.attr, lean_ty(tr)), n)
+        kws = {k.arg: k.value for k in n.keywords}
+        if None in kws or len(kws) != len(n.keywords):
+            raise Untranslatable("** or repeated keyword arguments", n)
+        if f.attr == "add_constraint_eq_zero":
+            args = list(n.args)
+            if len(args) == 2 and "lam" not in kws:
+                P, lam = args
+            elif len(args) == 1 and "lam" in kws:
+                P, lam = args[0], kws.pop("lam")
+            else:
+                raise Untranslatable("add_constraint_eq_zero called with other than (P, lam, bounds=…)", n)
+            if set(kws) != {"bounds"}:
+                raise Untranslatable("add_constraint_eq_zero called with other keywords than lam, bounds", n)
+            sp, tp = self.expr(P, env)
+            sl, tl = self.expr(lam, env)
+            b = kws["bounds"]
+            if isinstance(b, ast.Tuple) and len(b.elts) == 2:
+                parts = [self.expr(x, env) for x in b.elts]
+            else:
+                sb, tb = self.expr(b, env)
+                if not (isinstance(res(tb), TTuple) and len(res(tb).elts) == 2):
+                    raise Untranslatable("bounds that is not a pair", n)
+                parts = [(proj(sb, i, 2), res(tb).elts[i]) for i in range(2)]
+            lo, hi = [coerce(x, t, RAT, n) for x, t in parts]
+            return self.bind("(pyAddEqZero %s %s %s %s %s)" % (recv, coerce(sp, tp, VAL, n), coerce(sl, tl, RAT, n),
+                                                              lo, hi), ST, n)
+        cls = self.e["func"].split(".")[0] if "." in self.e["func"] else None
+        callee = self.done.get("%s.%s" % (cls, f.attr))
+        if callee is None or callee.get("func") != "%s.%s" % (cls, f.attr) or callee["file"] != self.e["file"]:
+            raise Untranslatable("method %s is not a registered method of this class" % f.attr, n)
+        if callee["status"] != "translated":
+            raise Untranslatable("call of %s, which is itself %s" % (f.attr, callee["status"]), n)
+        nkw = len(callee.get("kwonly", []))
+        ptys = callee["param_tys"]
+        pos_tys = ptys[1:len(ptys) - nkw]                     # without self and the keyword-only ones
+        args = self.pass_args(f.attr, n, env, pos_tys, callee.get("vararg", False))
+        for (kname, ktyname, kdefault), kt in zip(callee.get("kwonly", []), ptys[len(ptys) - nkw:]):
+            v = kws.pop(kname, None)
+            sv, tv = self.expr(v if v is not None else ast.parse(kdefault).body[0].value, env)
+            args.append(coerce(sv, tv, kt, n))
+        if kws:
+            raise Untranslatable("unknown keyword arguments %s" % sorted(kws), n)
+        call = "(%s %s %s)" % (callee["lean"], recv, " ".join(args))
+        return self.bind(call, callee["ret_ty"], n) if callee["raises"] else (call, callee["ret_ty"])
+
+    def call_self(self, n, env):
+        """a recursive call; needs the declared return type and a termination measure (registry)"""
+        if self.ret_ty is None or "measure" not in self.e:
+            raise Untranslatable("recursive call in a function without declared return type and measure", n)
+        if any(isinstance(s, ast.FunctionDef) and s.name == self.own_name for s in ast.walk(self.fnode) if s is not self.fnode) \
+                or self.own_name in self.assigned(self.fnode.body) or self.own_name in env:
+            raise Untranslatable("%s is rebound inside its own body" % self.own_name, n)
+        args = self.pass_args(self.own_name, n, env, self.cur_ptys, bool(self.e.get("vararg")))
+        self.recursive = True
+        call = "(%s %s)" % (self.e.get("lean", self.own_name), " ".join(args))
+        return self.bind(call, self.ret_ty, n) if self.raises else (call, self.ret_ty)
+
     def list_like(self, n, env):
+        if isinstance(n, ast.Call) and isinstance(n.func, ast.Name) and n.func.id == "map" and len(n.args) == 2 \
+                and isinstance(n.args[0], ast.Name) and n.args[0].id == "abs" and "abs" not in env \
+                and "abs" not in self.module_names() and "map" not in self.module_names():
+            src, et = self.iter_source(n.args[1], env)
+            if res(et) is not RAT:
+                raise Untranslatable("map(abs, …) over a %s" % lean_ty(et), n)
+            return "(List.map (fun (_py_it : Rat) => (pyAbs _py_it)) %s)" % src, TList(RAT)
         if isinstance(n, ast.Call) and isinstance(n.func, ast.Name) and n.func.id == "map" and len(n.args) == 2 \
                 and isinstance(n.args[0], ast.Lambda):
             lam = n.args[0]
@@ -589,7 +1253,7 @@ class Fn:
             p = a.args[0].arg
             env2 = dict(env)
             env2[p] = et
-            e, te = self.expr(lam.body, env2)
+            e, te = self.pure_only(lambda: self.expr(lam.body, env2), "a lambda", lam)
             return "(List.map (fun (%s : %s) => %s) %s)" % (mangle(p), lean_ty(et), e, src), TList(te)
         return self.expr(n, env)
 
@@ -597,12 +1261,12 @@ class Fn:
         gen = self.one_generator(g)
         src, et = self.iter_source(gen.iter, env)
         lets, env2 = self.bind_target(gen.target, et, "_py_it", env)
-        e, te = self.expr(g.elt, env2)
+        e, te = self.pure_only(lambda: self.expr(g.elt, env2), "a generator expression", g)
         if not is_num(te):
             raise Untranslatable("sum of non-numbers", g)
         step = "(_py_acc + %s)" % e
         if gen.ifs:
-            c = " ∧ ".join(self.cond(i, env2) for i in gen.ifs)
+            c = " ∧ ".join(self.pure_only(lambda i=i: self.cond(i, env2), "a generator expression", g) for i in gen.ifs)
             step = "if %s then %s else _py_acc" % (c, step)
         t = lean_ty(te)
         return "(List.foldl (fun (_py_acc : %s) (_py_it : %s) => %s%s) (0 : %s) %s)" % (
@@ -641,7 +1305,7 @@ class Fn:
         callee = self.done[name]
         if callee["status"] != "translated":
             raise Untranslatable("call of %s, which is itself %s" % (name, callee["status"]), n)
-        if callee["raises"]:
+        if callee["raises"] and not self.monadic:
             raise Untranslatable("call of a function that may raise", n)
         # the name must denote that function here: defined in this module, or imported by name
         tree = ast.parse(self.src)
@@ -652,14 +1316,11 @@ class Fn:
             raise Untranslatable("cannot resolve %s to the registered function" % name, n)
         if defined and callee["file"] != self.e["file"]:
             raise Untranslatable("%s is a different function in this module" % name, n)
-        ptys = callee["param_tys"]
-        if len(n.args) != len(ptys):
-            raise Untranslatable("call of %s with %d arguments" % (name, len(n.args)), n)
-        args = []
-        for a, pt in zip(n.args, ptys):
-            s, t = self.expr(a, env, pt)
-            args.append(coerce(s, t, pt, n))
-        return "(%s %s)" % (callee["lean"], " ".join(args)), callee["ret_ty"]
+        args = self.pass_args(name, n, env, callee["param_tys"], callee.get("vararg", False))
+        call = "(%s %s)" % (callee["lean"], " ".join(args))
+        if callee["raises"]:
+            return self.bind(call, callee["ret_ty"], n)
+        return call, callee["ret_ty"]
 
     # ---- statements (continuation passing: `k(env)` renders what happens after the block)
 
@@ -672,18 +1333,40 @@ class Fn:
                     out.append(n.id)
         return out
 
+    def effect_const(self, s, env):
+        """the constant naming an abstracted statement; `{x}` in the registry's text is the translated value of
+        the local `x`, which must occur in the statement"""
+        text = self.effects[ast.dump(s)]
+        used = {n.id for n in ast.walk(s) if isinstance(n, ast.Name)}
+
+        def hole(m):
+            x = m.group(1)
+            if x not in used:
+                raise Untranslatable("registry: effect mentions {%s}, which does not occur in the statement" % x, s)
+            v, t = self.expr(ast.Name(id=x, ctx=ast.Load(), lineno=s.lineno), env)
+            if m.group(2):          # `{x:Rat}`: the constant takes a value of that type
+                v = coerce(v, t, PARAM_TYPES[m.group(2)](), s)
+            elif isinstance(res(t), TV):
+                raise Untranslatable("effect argument %s of undetermined type" % x, s)
+            return v if re.match(r"^[\w']+$", v) else "(%s)" % v
+        return re.sub(r"\{(\w+)(?::(\w+))?\}", hole, text)
+
     def is_effect(self, s):
         return ast.dump(s) in self.effects or (isinstance(s, ast.Expr) and ast.dump(s) in self.effects)
 
     def ret(self, s, env):
         if self.e.get("returns_effects") and isinstance(s.value, ast.Name) and s.value.id == self.e["returns_effects"]:
             v, t = "_py_eff", TList(self.eff_ty)
+        elif s.value is None and self.e.get("store_ops") and not self.e.get("returns_effects"):
+            v, t = "_py_eff", TList(self.eff_ty)        # `return` of a procedure: the statements recorded so far
         elif s.value is None:
             raise Untranslatable("bare return", s)
         else:
             v, t = self.expr(s.value, env, self.ret_ty)
         if res(t) is PROP:
             v, t = coerce(v, PROP, BOOL), BOOL
+        if self.e.get("effects_with_return"):      # the returned value together with the statements executed
+            v, t = "(%s, _py_eff)" % v, TTuple([t, TList(self.eff_ty)])
         self.ret_seen.append(t)
         if self.ret_ty is not None:
             v = coerce(v, t, self.ret_ty, s)
@@ -696,7 +1379,58 @@ class Fn:
         """flow: None in straight code / foldl bodies; (ρ) inside a pyFor body, where return -> Flow.ret"""
         if not stmts:
             return k(env)
+        # the operations of this statement that may raise are bound, in evaluation order, around it and its continuation
+        self.pend.append([])
+        try:
+            out = self.stmt(stmts, env, k, ind, flow)
+        finally:
+            frame = self.pend.pop()
+        return self.wrap(frame, out, " " * ind)
+
+    OPERATOR_FUNCS = {"mul": ast.Mult, "imul": ast.Mult, "add": ast.Add, "iadd": ast.Add, "sub": ast.Sub, "isub": ast.Sub}
+
+    def desugar_reduce(self, s, env):
+        """`x = reduce(op, it, init)` / `return reduce(op, it, init)` with `op` from the operator module:
+        `acc = init; for e in it: acc = acc <op> e` (`it` may be `map(F, L)`, which is lazy: `F` is applied to one
+        element at a time, just before it is combined)"""
+        val = s.value if isinstance(s, (ast.Return, ast.Assign)) else None
+        if not (isinstance(val, ast.Call) and isinstance(val.func, ast.Name) and val.func.id == "reduce"
+                and len(val.args) == 3 and not val.keywords and "reduce" not in env):
+            return None
+        if isinstance(s, ast.Assign) and not (len(s.targets) == 1 and isinstance(s.targets[0], ast.Name)):
+            return None
+        op, it, init = val.args
+        self.need_import("functools", "reduce", s)
+        if not (isinstance(op, ast.Name) and op.id in self.OPERATOR_FUNCS and op.id not in env):
+            raise Untranslatable("reduce with a function that is not one of operator.%s" % sorted(self.OPERATOR_FUNCS), s)
+        self.need_import("operator", op.id, s)
+        acc = s.targets[0].id if isinstance(s, ast.Assign) else "acc"
+        while not isinstance(s, ast.Assign) and (acc in env or acc in self.assigned(self.fnode.body)):
+            acc += "'"
+        elt = "elt"
+        while elt in env or elt in self.assigned(self.fnode.body):
+            elt += "'"
+        ld = lambda name: ast.Name(id=name, ctx=ast.Load(), lineno=s.lineno)   # noqa: E731
+        item = ld(elt)
+        if isinstance(it, ast.Call) and isinstance(it.func, ast.Name) and it.func.id == "map" and len(it.args) == 2 \
+                and not it.keywords and isinstance(it.args[0], ast.Name) and "map" not in env \
+                and "map" not in self.module_names():
+            item = ast.Call(func=it.args[0], args=[item], keywords=[], lineno=s.lineno)
+            it = it.args[1]
+        out = [ast.Assign(targets=[ast.Name(id=acc, ctx=ast.Store(), lineno=s.lineno)], value=init, lineno=s.lineno),
+               ast.For(target=ast.Name(id=elt, ctx=ast.Store(), lineno=s.lineno), iter=it, orelse=[], lineno=s.lineno,
+                       body=[ast.Assign(targets=[ast.Name(id=acc, ctx=ast.Store(), lineno=s.lineno)], lineno=s.lineno,
+                                        value=ast.BinOp(left=ld(acc), op=self.OPERATOR_FUNCS[op.id](), right=item,
+                                                        lineno=s.lineno))])]
+        if isinstance(s, ast.Return):
+            out.append(ast.Return(value=ld(acc), lineno=s.lineno))
+        return out
+
+    def stmt(self, stmts, env, k, ind, flow):
         s, rest = stmts[0], stmts[1:]
+        des = self.desugar_reduce(s, env)
+        if des is not None:
+            return self.stmt(des + list(rest), env, k, ind, flow)
         pad = " " * ind
 
         def cont(env2):
@@ -707,7 +1441,17 @@ class Fn:
         if isinstance(s, ast.Pass):
             return cont(env)
         if self.effects and ast.dump(s) in self.effects:
-            return "let _py_eff : List Eff := _py_eff ++ [%s];\n%s%s" % (self.effects[ast.dump(s)], pad, cont(env))
+            return "let _py_eff : List %s := _py_eff ++ [%s];\n%s%s" % (
+                lean_ty(self.eff_ty, False), self.effect_const(s, env), pad, cont(env))
+        if isinstance(s, ast.Expr) and isinstance(s.value, ast.Yield):
+            if not self.e.get("generator") or s.value.value is None:
+                raise Untranslatable("yield outside a function translated as a generator", s)
+            v, t = self.expr(s.value.value, env, self.eff_ty)
+            return "let _py_eff : %s := _py_eff ++ [%s];\n%s%s" % (
+                lean_ty(TList(self.eff_ty)), coerce(v, t, self.eff_ty, s), pad, cont(env))
+        sd = self.setdefault_append(s, env)
+        if sd:
+            return "%s\n%s%s" % (sd, pad, cont(env))
         if isinstance(s, ast.Return):
             if rest:
                 raise Untranslatable("statement after return", rest[0])
@@ -726,6 +1470,10 @@ class Fn:
         if isinstance(s, ast.Assign):
             if len(s.targets) != 1:
                 raise Untranslatable("chained assignment", s)
+            t0 = s.targets[0]
+            if self.e.get("store_ops") and isinstance(t0, ast.Subscript) and isinstance(t0.value, ast.Name) \
+                    and t0.value.id == self.store:
+                return self.store_op(t0, "set", s.value, env, cont, pad, s)
             return self.assign(s.targets[0], s.value, env, cont, pad, s)
         if isinstance(s, ast.AugAssign):
             if isinstance(s.target, ast.Name):
@@ -733,6 +1481,10 @@ class Fn:
                 env2 = dict(env)
                 env2[s.target.id] = t
                 return "let %s : %s := %s;\n%s%s" % (mangle(s.target.id), lean_ty(t), v, pad, cont(env2))
+            if self.e.get("store_ops") and isinstance(s.target, ast.Subscript) and isinstance(s.target.value, ast.Name) \
+                    and s.target.value.id == self.store and isinstance(s.op, (ast.Add, ast.Sub, ast.Mult)):
+                return self.store_op(s.target, {ast.Add: "add", ast.Sub: "sub", ast.Mult: "mul"}[type(s.op)], s.value,
+                                     env, cont, pad, s)
             if self.store and isinstance(s.target, ast.Subscript) and isinstance(s.target.value, ast.Name) \
                     and s.target.value.id == self.store and isinstance(s.op, (ast.Add, ast.Sub)):
                 key, tk = self.expr(s.target.slice, env)
@@ -750,6 +1502,36 @@ class Fn:
             return self.for_(s, env, cont, ind, flow)
         raise Untranslatable("statement %s" % type(s).__name__, s)
 
+    def store_op(self, target, kind, value, env, cont, pad, node):
+        """`L[key] = e`, `L[key] += e`, `L[key] -= e`, `L[key] *= e` on the opaque container L -> one recorded SOp"""
+        key, tk = self.expr(target.slice, env)
+        if res(tk) is not KEY:
+            raise Untranslatable("store into %s with a key that is not a tuple of labels" % self.store, node)
+        v, tv = self.expr(value, env)
+        v = coerce(v, tv, RAT, node)
+        op = {"set": "SOp.set %s %s", "add": "SOp.add %s %s", "sub": "SOp.add %s (-%s)", "mul": "SOp.mul %s %s"}[kind]
+        self.stored = True
+        return "let _py_eff : List SOp := _py_eff ++ [%s];\n%s%s" % (op % (key, v), pad, cont(env))
+
+    def setdefault_append(self, s, env):
+        """`d.setdefault(k, []).append(x)` on a local dict of lists -> `let d := pySetdefaultAppend d k x;`"""
+        c = s.value if isinstance(s, ast.Expr) else None
+        if not (isinstance(c, ast.Call) and isinstance(c.func, ast.Attribute) and c.func.attr == "append"
+                and len(c.args) == 1 and not c.keywords):
+            return None
+        inner = c.func.value
+        if not (isinstance(inner, ast.Call) and isinstance(inner.func, ast.Attribute) and inner.func.attr == "setdefault"
+                and isinstance(inner.func.value, ast.Name) and len(inner.args) == 2 and not inner.keywords
+                and isinstance(inner.args[1], ast.List) and not inner.args[1].elts):
+            return None
+        d = inner.func.value.id
+        if d not in env or res(env[d]) is not ALLSOLS:
+            return None
+        k, tk = self.expr(inner.args[0], env)
+        x, tx = self.expr(c.args[0], env)
+        return "let %s : %s := (pySetdefaultAppend %s %s %s);" % (
+            mangle(d), lean_ty(ALLSOLS), mangle(d), coerce(k, tk, TOpt(RAT), s), coerce(x, tx, BASSIGN, s))
+
     def assign(self, target, value, env, cont, pad, node):
         if isinstance(target, ast.Name):
             v, t = self.expr(value, env)
@@ -758,6 +1540,24 @@ class Fn:
             env2 = dict(env)
             env2[target.id] = t
             return "let %s : %s := %s;\n%s%s" % (mangle(target.id), lean_ty(t), v, pad, cont(env2))
+        if isinstance(target, ast.Tuple) and len(target.elts) >= 2 and isinstance(target.elts[0], ast.Starred) \
+                and isinstance(target.elts[0].value, ast.Name) and all(isinstance(x, ast.Name) for x in target.elts[1:]):
+            # `*head, a, b = L`: ValueError when L is too short; head is the slice, the others are read from the end
+            v, t = self.expr(value, env)
+            t = res(t)
+            if not isinstance(t, TList):
+                raise Untranslatable("starred unpacking of a %s" % lean_ty(t), node)
+            k = len(target.elts) - 1
+            self.bind("(pyUnpackAtLeast %s %d)" % (v, k), UNIT, node)
+            lasts = [self.bind("(pyIndex %s (-%d : Int))" % (v, k - i), t.elt, node)[0] for i in range(k)]
+            env2 = dict(env)
+            head = target.elts[0].value.id
+            env2[head] = t
+            out = "let %s : %s := (pySlice %s none (some (-%d : Int)));\n%s" % (mangle(head), lean_ty(t), v, k, pad)
+            for x, m in zip(target.elts[1:], lasts):
+                env2[x.id] = t.elt
+                out += "let %s : %s := %s;\n%s" % (mangle(x.id), lean_ty(t.elt), m, pad)
+            return out + cont(env2)
         if isinstance(target, ast.Tuple) and all(isinstance(x, ast.Name) for x in target.elts):
             v, t = self.expr(value, env)
             t = res(t)
@@ -826,7 +1626,11 @@ class Fn:
         c = self.cond(test, env)
         a = self.block(body, env, cont, ind + 2, flow)
         b = self.block(orelse, env, cont, ind + 2, flow)
-        return "if %s then\n%s  (%s)\n%selse\n%s  (%s)" % (c, pad, a, pad, pad, b)
+        hyp = ""
+        if "measure" in self.e:       # a function that may call itself: the test is available to its termination proof
+            self.nhyp += 1
+            hyp = "_py_h%d : " % self.nhyp
+        return "if %s%s then\n%s  (%s)\n%selse\n%s  (%s)" % (hyp, c, pad, a, pad, pad, b)
 
     def for_(self, s, env, cont, ind, flow):
         if s.orelse:
@@ -837,7 +1641,7 @@ class Fn:
         src, et = self.iter_source(s.iter, env)
         targets = [n.id for n in ast.walk(s.target) if isinstance(n, ast.Name)]
         names = [x for x in self.assigned(s.body) if x not in targets]
-        accs = [x for x in names if x in env]
+        accs = [x for x in names if x in env and res(env[x]) is not OPAQUE]
         if self.eff_ty is not None and "_py_eff" in env and self.mentions_effect(s.body):
             accs.append("_py_eff")
         for x in targets:
@@ -851,6 +1655,22 @@ class Fn:
                          for i, (x, t) in enumerate(zip(accs, acc_tys)))
         lets, env_body = self.bind_target(s.target, et, "_py_it", env)
         has_ret = any(isinstance(n, (ast.Return, ast.Raise)) for b in s.body for n in ast.walk(b))
+        if self.e.get("store_ops") and self.mentions_effect(s.body):
+            self.in_store_loop += 1
+            try:
+                return self.for_body(s, env, cont, ind, flow, pad, src, et, accs, acc_tys, acc_ty, mg, init, unpack, lets,
+                                     env_body, has_ret)
+            finally:
+                self.in_store_loop -= 1
+        return self.for_body(s, env, cont, ind, flow, pad, src, et, accs, acc_tys, acc_ty, mg, init, unpack, lets,
+                             env_body, has_ret)
+
+    def for_body(self, s, env, cont, ind, flow, pad, src, et, accs, acc_tys, acc_ty, mg, init, unpack, lets, env_body,
+                 has_ret):
+        if self.monadic:
+            if any(isinstance(n, ast.Return) for b in s.body for n in ast.walk(b)):
+                raise Untranslatable("return inside a loop of a function translated in monadic mode", s)
+            has_ret = False
 
         def after_body(env2):
             for x, t in zip(accs, acc_tys):
@@ -858,11 +1678,19 @@ class Fn:
                     raise Untranslatable("local %s changes type (%s to %s) inside the loop" % (
                         x, lean_ty(t), lean_ty(env2[x])), s)
             tup = "(" + ", ".join(mg(x) for x in accs) + ")" if accs else "()"
+            if self.monadic:
+                return "(Except.ok %s)" % tup
             return "(Flow.next %s)" % tup if has_ret else tup
 
         rebind = "".join("let %s : %s := %s;\n%s" % (mg(x), lean_ty(t), proj("_py_acc", i, len(accs)), pad)
                          for i, (x, t) in enumerate(zip(accs, acc_tys)))
         env_after = dict(env)             # locals first assigned inside the loop are not visible afterwards
+        if self.monadic:
+            body = self.block(s.body, env_body, after_body, ind + 4, None)
+            return ("((pyForM %s %s (fun (_py_acc : %s) (_py_it : %s) =>\n%s    %s%s\n%s    %s)) >>= "
+                    "fun (_py_acc : %s) =>\n%s%s%s)" % (
+                        src, init, lean_ty(acc_ty), lean_ty(et), pad, unpack, lets, pad, body, lean_ty(acc_ty), pad,
+                        rebind, cont(env_after)))
         if not has_ret:
             body = self.block(s.body, env_body, after_body, ind + 4, None)
             return "let _py_acc : %s := List.foldl (fun (_py_acc : %s) (_py_it : %s) =>\n%s    %s%s\n%s    %s) %s %s;\n%s%s%s" % (
@@ -884,6 +1712,15 @@ class Fn:
                 if self.store and isinstance(n, ast.AugAssign) and isinstance(n.target, ast.Subscript) \
                         and isinstance(n.target.value, ast.Name) and n.target.value.id == self.store:
                     return True
+                if self.e.get("generator") and isinstance(n, ast.Yield):
+                    return True
+                if self.e.get("store_ops") and isinstance(n, ast.Assign) and len(n.targets) == 1 \
+                        and isinstance(n.targets[0], ast.Subscript) and isinstance(n.targets[0].value, ast.Name) \
+                        and n.targets[0].value.id == self.store:
+                    return True
+                if self.e.get("store_ops") and isinstance(n, ast.AugAssign) and isinstance(n.target, ast.Subscript) \
+                        and isinstance(n.target.value, ast.Name) and n.target.value.id == self.store:
+                    return True
         return False
 
     # ---- the function
@@ -900,16 +1737,50 @@ class Fn:
             body = body[idx[0] + 1:]
         if "loop_body" in e:
             lb = e["loop_body"]
+            if "source" not in lb:
+                # the loop is identified by the marker statement alone: the one `for` whose body contains it
+                marker = ast.dump(ast.parse(lb["after"]).body[0])
+
+                def all_loops(stmts):
+                    for x in stmts:
+                        if isinstance(x, ast.For):
+                            yield x
+                        if isinstance(x, (ast.If, ast.For, ast.While, ast.Try)):
+                            for part in (x.body, x.orelse, getattr(x, "finalbody", [])):
+                                for y in all_loops(part):
+                                    yield y
+                loops = [l for l in all_loops(body) if sum(1 for s in l.body if ast.dump(s) == marker) == 1]
+                if len(loops) != 1:
+                    raise Untranslatable("no unique loop whose body contains %r" % lb["after"], f)
+                lbody = list(loops[0].body)
+                idx = [i for i, s in enumerate(lbody) if ast.dump(s) == marker][0]
+                return lbody[idx + 1:]
             want = ast.parse("for %s in %s: pass" % (lb["target"], lb["source"])).body[0]
-            loops = [s for s in body if isinstance(s, ast.For) and ast.dump(s.target) == ast.dump(want.target)
+            def all_stmts(stmts):           # the function's statements, through if/else and loops, not into nested defs
+                for x in stmts:
+                    yield x
+                    if isinstance(x, (ast.If, ast.For, ast.While)):
+                        for y in all_stmts(x.body):
+                            yield y
+                        for y in all_stmts(x.orelse):
+                            yield y
+            loops = [s for s in all_stmts(body) if isinstance(s, ast.For) and ast.dump(s.target) == ast.dump(want.target)
                      and ast.dump(s.iter) == ast.dump(want.iter)]
             if len(loops) != 1:
                 raise Untranslatable("loop `for %s in %s` not found exactly once" % (lb["target"], lb["source"]), f)
             body = list(loops[0].body)
-            marker = ast.dump(ast.parse(lb["after"]).body[0])
-            if not body or ast.dump(body[0]) != marker:
-                raise Untranslatable("loop body does not start with %r" % lb["after"], loops[0])
-            body = body[1:]
+            marker = ast.dump(ast.parse(lb["after"]).body[0]) if lb.get("after") else None
+            if marker is None:
+                pass
+            elif lb.get("anywhere"):
+                idx = [i for i, s in enumerate(body) if ast.dump(s) == marker]
+                if len(idx) != 1:
+                    raise Untranslatable("loop body does not contain %r exactly once" % lb["after"], loops[0])
+                body = body[idx[0] + 1:]
+            else:
+                if not body or ast.dump(body[0]) != marker:
+                    raise Untranslatable("loop body does not start with %r" % lb["after"], loops[0])
+                body = body[1:]
         return body
 
     def check_signature(self):
@@ -919,12 +1790,18 @@ class Fn:
                 raise Untranslatable("decorator %s" % ast.unparse(d), self.fnode)
         if "loop_body" in e:
             return
-        if a.vararg or a.kwarg or a.kwonlyargs or a.posonlyargs:
-            raise Untranslatable("signature with *args/**kwargs/keyword-only parameters", self.fnode)
-        got = [x.arg for x in a.args]
-        want = [p for p, _ in e["params"]]
+        va = e.get("vararg")
+        if a.kwarg or a.posonlyargs or (a.vararg is not None) != bool(va) or (a.kwonlyargs and "kwonly" not in e):
+            raise Untranslatable("signature with *args/**kwargs/keyword-only parameters the registry does not expect",
+                                 self.fnode)
+        got = [x.arg for x in a.args] + ([a.vararg.arg] if a.vararg else []) + [x.arg for x in a.kwonlyargs]
+        want = [p for p, _ in e["params"]] + ([va[0]] if va else []) + [p for p, _, _ in e.get("kwonly", [])]
         if got != want:
             raise Untranslatable("signature changed: parameters %s, registry expects %s" % (got, want), self.fnode)
+        for x, (_, _, dflt) in zip(a.kw_defaults, e.get("kwonly", [])):
+            if x is None or ast.dump(x) != ast.dump(ast.parse(dflt).body[0].value):
+                raise Untranslatable("default of a keyword-only parameter changed (registry expects %s)" % dflt,
+                                     self.fnode)
 
     def translate_once(self):
         TV.n, TV.all = 0, {}
@@ -942,6 +1819,14 @@ class Fn:
                 env[p + "_is_dict"] = BOOL
                 binders.append("(%s_is_dict : Bool)" % p)
                 ptys.append(BOOL)
+        for p, tyname in ([e["vararg"]] if e.get("vararg") else []) + [(p, t) for p, t, _ in e.get("kwonly", [])]:
+            t = PARAM_TYPES[tyname]()
+            env[p] = t
+            binders.append("(%s : %s)" % (mangle(p), lean_ty(t)))
+            ptys.append(t)
+        self.cur_ptys = ptys
+        self.pend, self.nbind, self.nhyp = [[]], 0, 0
+        self.stored, self.in_store_loop = False, 0
         for p, tyname in e.get("locals", []):       # names bound by the skipped statements (the marker)
             env[p] = PARAM_TYPES[tyname]()
             binders.append("(%s : %s)" % (mangle(p), lean_ty(env[p])))
@@ -950,7 +1835,16 @@ class Fn:
         stmts = self.body_statements()
 
         def fall_off(env2):
-            if "loop_body" in e:        # end of the loop body: the updates collected so far
+            if "loop_state" in e:       # end of the loop body: the locals the loop carries on
+                tys = [PARAM_TYPES[t]() for _, t in e["loop_state"]]
+                vals = []
+                for (x, _), t in zip(e["loop_state"], tys):
+                    vx, tx = self.expr(ast.Name(id=x, ctx=ast.Load(), lineno=self.fnode.lineno), env2)
+                    vals.append(coerce(vx, tx, t, self.fnode))
+                self.ret_seen.append(TTuple(tys) if len(tys) > 1 else tys[0])
+                return self.wrap_ok("(" + ", ".join(vals) + ")")
+            if "loop_body" in e or e.get("generator") or e.get("store_ops"):   # end of the loop body / generator /
+                # a procedure that only writes to the container: what was collected
                 self.ret_seen.append(TList(self.eff_ty))
                 return self.wrap_ok("_py_eff")
             raise Untranslatable("control can reach the end of the function without return", self.fnode)
@@ -963,15 +1857,27 @@ class Fn:
         return binders, ptys, body
 
     def translate(self):
-        self.ret_ty = None
-        self.translate_once()
-        if not self.ret_seen:
-            raise Untranslatable("function never returns a value", self.fnode)
-        t = self.ret_seen[0]
-        for u in self.ret_seen[1:]:
-            t = join(t, u, self.fnode)
-        self.ret_ty = freeze(t)
+        if "returns" in self.e:
+            self.ret_ty = PARAM_TYPES[self.e["returns"]]()
+        else:
+            self.ret_ty = None
+            self.translate_once()
+            if not self.ret_seen:
+                raise Untranslatable("function never returns a value", self.fnode)
+            t = self.ret_seen[0]
+            for u in self.ret_seen[1:]:
+                t = join(t, u, self.fnode)
+            self.ret_ty = freeze(t)
         binders, ptys, body = self.translate_once()
+        # an int literal used as an operand of object arithmetic is the number
+        body = re.sub(r"\((-?\d+) : ⟦T(\d+)⟧\)", lambda m: ("(Val.num (%s))" % m.group(1)) if res(TV.all[int(m.group(2))]) is VAL
+                      else m.group(0), body)
+        if self.recursive:
+            env = {p: PARAM_TYPES[t]() for p, t in self.e["params"] + ([self.e["vararg"]] if self.e.get("vararg") else [])}
+            ms, mt = self.expr(ast.parse(self.e["measure"]).body[0].value, env)
+            if res(mt) is not NAT:
+                raise Untranslatable("termination measure that is not a natural number", self.fnode)
+            body += "\ntermination_by %s\ndecreasing_by all_goals py_decreasing" % ms
         # a literal nothing ever constrained is a Python int
         body = re.sub(r"⟦T(\d+)⟧", lambda m: lean_ty(freeze(TV.all[int(m.group(1))]), False), body)
         rty = lean_ty(self.ret_ty)
@@ -997,7 +1903,7 @@ def find_function(tree, qual):
     parts, body = qual.split("."), tree.body
     node = None
     for i, p in enumerate(parts):
-        kinds = ast.FunctionDef if i == len(parts) - 1 else ast.ClassDef
+        kinds = ast.FunctionDef if i == len(parts) - 1 else (ast.ClassDef, ast.FunctionDef)
         hits = [s for s in body if isinstance(s, kinds) and s.name == p]
         if len(hits) != 1:
             return None
@@ -1006,14 +1912,30 @@ def find_function(tree, qual):
     return node
 
 
+# generated files: unit name -> (file, imports).  One file per unit so that a source edit (or a translator
+# failure) in one unit cannot disturb the obligations of the properties that use another.
+UNITS = {
+    "": ("Source.lean", ["Qv.Model.Basic", "Qv.Gen.Prelude"]),
+    "Sat": ("SourceSat.lean", ["Qv.Model.Sat", "Qv.Gen.PreludeObj"]),
+    "Cons": ("SourceCons.lean", ["Qv.Gen.Source", "Qv.Gen.PreludeCons"]),
+    "Logic": ("SourceLogic.lean", ["Qv.Gen.SourceSat", "Qv.Gen.PreludePcbo"]),
+    "Pcso": ("SourcePcso.lean", ["Qv.Model.Basic", "Qv.Gen.PreludeCons"]),
+    "Brute": ("SourceBrute.lean", ["Qv.Model.Brute", "Qv.Gen.PreludeBrute"]),
+    "Conv": ("SourceConv.lean", ["Qv.Model.Basic", "Qv.Gen.PreludeM"]),
+    "Store": ("SourceStore.lean", ["Qv.Model.Basic", "Qv.Gen.PreludeStore"]),
+}
+
+
 def translate_all():
-    """returns (lean source text, manifest dict)"""
-    done, out, manifest = {}, [], {}
+    """returns ({file name: lean source text}, manifest dict)"""
+    done, outs, manifest = {}, {u: [] for u in UNITS}, {}
     for e in REGISTRY:
+        out = outs[e.get("unit", "")]
         lean_name = e.get("lean", e["func"].split(".")[-1])
         key = e["file"] + "::" + e["func"] + ("" if lean_name == e["func"].split(".")[-1] else " as " + lean_name)
         rec = dict(file=e["file"], function=e["func"], lean_name="Qv.Gen." + lean_name, props=e["props"],
-                   group=e["group"], theorem="Qv.Gen.%s_eq_model" % lean_name, source_hash=None, lines=None)
+                   group=e["group"], theorem="Qv.Gen.%s_eq_model" % lean_name, source_hash=None, lines=None,
+                   unit=UNITS[e.get("unit", "")][0], not_translated=e.get("not_translated", []))
         info = dict(status=None, lean=lean_name, file=e["file"], raises=False)
         path = os.path.join(repo(), e["file"])
         try:
@@ -1032,13 +1954,19 @@ def translate_all():
             rec["lines"] = [f.lineno, f.end_lineno]
             fn = Fn(e, src, f, done)
             binders, ptys, rty, body = fn.translate()
-            info.update(status="translated", param_tys=ptys, ret_ty=fn.ret_ty, raises=fn.raises)
+            info.update(status="translated", param_tys=ptys, ret_ty=fn.ret_ty, raises=fn.raises,
+                        vararg=bool(e.get("vararg")), kwonly=e.get("kwonly", []), func=e["func"],
+                        nested=bool(e.get("nested")))
             part = ""
             if "after" in e:
                 part = "\n(only the statements after `%s`)" % e["after"].replace("\n", " ")
             if "loop_body" in e:
-                part = "\n(only the body of `for %s in %s:` after `%s`)" % (
-                    e["loop_body"]["target"], e["loop_body"]["source"], e["loop_body"]["after"])
+                if "source" in e["loop_body"]:
+                    part = "\n(only the body of `for %s in %s:`%s)" % (
+                        e["loop_body"]["target"], e["loop_body"]["source"],
+                        " after `%s`" % e["loop_body"]["after"] if e["loop_body"].get("after") else "")
+                else:
+                    part = "\n(only the statements after `%s` in the body of the loop that contains it)" % e["loop_body"]["after"]
             out.append("/-- generated from `%s`, `%s`, lines %d-%d, sha256[:16] of its source text %s%s -/\n"
                        "def %s %s : %s :=\n  %s\n" % (
                            e["file"], e["func"], f.lineno, f.end_lineno, rec["source_hash"], part,
@@ -1048,21 +1976,30 @@ def translate_all():
             rec["status"] = info["status"] = "untranslatable: %s" % err
             out.append("-- %s `%s` (%s): %s\n-- no definition of `%s` is generated; its equivalence theorem cannot compile\n" % (
                 e["file"], e["func"], rec["source_hash"], rec["status"], lean_name))
-        done[e["func"].split(".")[-1] if "loop_body" not in e and "after" not in e else "\0" + lean_name] = info
+        # plain functions are callable by name, methods as Class.method; partial translations are not callable
+        done[e["func"] if "loop_body" not in e and "after" not in e else "\0" + lean_name] = info
         manifest[key] = rec
-    header = ("import Qv.Model.Basic\nimport Qv.Gen.Prelude\n/-!\n# Qv.Gen.Source — GENERATED by harness/translate.py "
-              "from the qubovert source; do not edit.\n\nRegenerated on every `./check` run from the current working "
-              "tree (`$VERIF_REPO`, default `/repo`).\nEach definition is the structural rendering of one Python "
-              "function (rules: docstring of\n`harness/translate.py`; meaning of the primitives: `Qv/Gen/Prelude.lean`)."
-              "  `Qv/Proofs/GenEq/*.lean`\nproves each equal to the hand-written model function.\n-/\n"
-              "set_option linter.unusedVariables false\nnamespace Qv.Gen\n\n")
-    return header + "\n".join(out) + "\nend Qv.Gen\n", manifest
+    texts = {}
+    for u, (fname, imports) in UNITS.items():
+        header = ("%s\n/-!\n# Qv.Gen.%s — GENERATED by harness/translate.py "
+                  "from the qubovert source; do not edit.\n\nRegenerated on every `./check` run from the current working "
+                  "tree (`$VERIF_REPO`, default `/repo`).\nEach definition is the structural rendering of one Python "
+                  "function (rules: docstring of\n`harness/translate.py`; meaning of the primitives: `Qv/Gen/Prelude*.lean`)."
+                  "  `Qv/Proofs/GenEq/*.lean`\nproves each equal to the hand-written model function.\n-/\n"
+                  "set_option linter.unusedVariables false\nnamespace Qv.Gen\n\n" % (
+                      "\n".join("import " + i for i in imports), fname[:-5]))
+        texts[fname] = header + "\n".join(outs[u]) + "\nend Qv.Gen\n"
+    return texts, manifest
+
+
+def generated_files():
+    return [f for f, _ in UNITS.values()]
 
 
 def write(gen_dir=GEN_DIR):
-    text, manifest = translate_all()
+    texts, manifest = translate_all()
     os.makedirs(gen_dir, exist_ok=True)
-    for name, content in (("Source.lean", text), ("manifest.json", json.dumps(manifest, indent=1, sort_keys=True) + "\n")):
+    for name, content in list(texts.items()) + [("manifest.json", json.dumps(manifest, indent=1, sort_keys=True) + "\n")]:
         p = os.path.join(gen_dir, name)
         if not os.path.exists(p) or open(p).read() != content:      # keep mtime when nothing changed
             open(p, "w").write(content)
